@@ -193,6 +193,17 @@ def unit_HsmsGuards():
         if any(isinstance(i, ast.FunctionDef) and i.name == "_connection_closed" for i in c.body):
             hooks.append(cname)
 
+    # who writes to the connection: every `self._connection.send_data(...)` call of the protocol classes, by enclosing method
+    senders = []
+    for rel, cname in (("hsms/protocol.py", "HsmsProtocol"), ("common/protocol.py", "Protocol")):
+        c = G.find_class(G.parse(rel), cname)
+        for m in c.body:
+            if isinstance(m, ast.FunctionDef):
+                for n in ast.walk(m):
+                    if isinstance(n, ast.Call) and G.P.dotted(n.func) in ("self._connection.send_data", "self.__connection.send_data"):
+                        senders.append(f"{cname}.{m.name}")
+    senders = sorted(set(senders))
+
     # the server's restart hook: does it wait for the thread that accepted the closed connection before it starts a new listener?
     scls = G.find_class(G.parse("common/tcp_server_connection.py"), "TcpServerConnection")
     hook = next((i for i in scls.body if isinstance(i, ast.FunctionDef) and i.name == "_connection_closed"), None)
@@ -220,12 +231,14 @@ def unit_HsmsGuards():
            "def ownDisconnectedListeners : List String := [" + ", ".join(q(x) for x in regs) + "]\n",
            "/-- TCP connection classes that implement the `_connection_closed` hook -/",
            "def closedHooks : List String := [" + ", ".join(q(x) for x in hooks) + "]\n",
+           "/-- methods of `Protocol` / `HsmsProtocol` that call `self._connection.send_data` -/",
+           "def sendDataCallers : List String := [" + ", ".join(q(x) for x in senders) + "]\n",
            "/-- `TcpServerConnection._connection_closed`: its calls of `self._server_thread.join()` / `self.__start_server_thread()`, in source order -/",
            "def serverRestartHook : List String := [" + ", ".join(q(x) for x in hook_calls) + "]\n",
            "end SecsModel.Gen.HsmsGuards\n"]
     G.write("HsmsGuards", "\n".join(out))
     G.FACTS["HsmsGuards"] = {"selectGuard": guards[0], "sockOpts": [list(o) for o in opts], "receiverThreadLast": last,
-                             "ownDisconnectedListeners": regs, "closedHooks": hooks, "serverRestartHook": hook_calls}
+                             "ownDisconnectedListeners": regs, "closedHooks": hooks, "serverRestartHook": hook_calls, "sendDataCallers": senders}
 
 
 UNITS = {"RxOrder": unit_RxOrder, "HsmsGuards": unit_HsmsGuards}
